@@ -48,7 +48,7 @@ func NewGen(seed int64, profile string) *Gen {
 		g.stepNo = 3
 	} else if names := scenariosFor(profile); len(names) > 0 && seed%4 != 0 {
 		// three histories out of four start with a template, taken in rotation (history seeds are
-		// consecutive): with 40 histories every template of the profile (30 at most) is used at
+		// consecutive): with 48 histories every template of the profile (36 at most) is used at
 		// least once, whatever the base seed (a random choice left some templates out of a
 		// quick run); the engine reports the templates used as scenario:<name> counters
 		g.Scenario = names[int((seed-seed/4-1)%int64(len(names)))]
